@@ -23,7 +23,7 @@ CONSTS = {
 SCHEMAS = {
     'BpConfig': {'pyclass': ('bp.config', 'Config'),
                  'fields': {'node_id': 'Str', 'rx_route_table': 'List[Ref[RxRouteItem]]',
-                            'tx_route_table': 'List[Ref[TxRouteItem]]'}},
+                            'tx_route_table': 'List[Ref[TxRouteItem]]', 'accept_after_verify': 'Bool'}},
     'RxRouteItem': {'pyclass': ('bp.config', 'RxRouteItem'), 'fields': {'eid_pattern': 'Any[pattern]', 'action': 'Str'}},
     'TxRouteItem': {'pyclass': ('bp.config', 'TxRouteItem'),
                     'fields': {'eid_pattern': 'Any[pattern]', 'next_nodeid': 'Str', 'cl_type': 'Str',
